@@ -60,7 +60,9 @@ def deep(doc):
             # every array the primitive holds under any name (`indices` is the documented alias of `index`), with shape, type and values
             for name, v in sorted(vars(p).items()):
                 if isinstance(v, numpy.ndarray):
-                    extra.append(('prim.' + name, tuple(v.shape), str(v.dtype), hashlib.sha1(numpy.ascontiguousarray(v).tobytes()).hexdigest()[:12]))
+                    # (a float array is the data of a source: assigned unshaped, save() gives that very array the documented shape — size, not shape)
+                    shape = tuple(v.shape) if v.dtype.kind in 'iu' else ('size', int(v.size))
+                    extra.append(('prim.' + name, shape, str(v.dtype), hashlib.sha1(numpy.ascontiguousarray(v).tobytes()).hexdigest()[:12]))
     s['_deep'] = extra
     return s
 
